@@ -21,7 +21,8 @@ _SRC_CHARS = "".join(sorted({c for p in (G.__file__, M.__file__) for c in Path(p
 # the 12 junk values of DESIGN.md §4 C04 plus YAML-only values (non-string keys, dates, bytes, non-finite floats)
 JUNK = [None, True, 0, -1, 1.5, "", "x", [], [None], {}, {"x": 1}, {1: 2}]
 YAML_ONLY = [{None: 1}, {True: "x"}, {1.5: []}, datetime.date(2001, 12, 14), datetime.datetime(2001, 12, 14, 21, 59, 43), b"bytes", float("inf"), float("nan"),
-             {"a": {2: 3}}, [{1: 2}], 2 ** 70, -(2 ** 70), "\x00", "{{", "}}", "{{a}}", "{{ Param.X }}", [[[]]], {"name": None}, [1, None, [2], 2.5, "3", True]]
+             {"a": {2: 3}}, [{1: 2}], 2 ** 70, -(2 ** 70), "\x00", "{{", "}}", "{{a}}", "{{ Param.X }}", [[[]]], {"name": None}, [1, None, [2], 2.5, "3", True],
+             {"a", "b"}, frozenset(["x"]), {1, 2}, set()]
 META = list("{}[]:,-\"'#&*!|>%@`") + ["\t", "\n", " ", "a", "1"]
 
 
@@ -36,6 +37,19 @@ def all_paths(x, base=()):
             out.append(base + (i,))
             out += all_paths(v, base + (i,))
     return out
+
+
+def stable(x):
+    """repr with sets in a canonical order (a set and its deep copy may iterate differently)"""
+    if isinstance(x, (set, frozenset)):
+        return type(x).__name__ + "{" + ", ".join(sorted(stable(v) for v in x)) + "}"
+    if isinstance(x, dict):
+        return "{" + ", ".join(stable(k) + ": " + stable(v) for k, v in x.items()) + "}"
+    if isinstance(x, list):
+        return "[" + ", ".join(stable(v) for v in x) + "]"
+    if isinstance(x, tuple):
+        return "(" + ", ".join(stable(v) for v in x) + ")"
+    return repr(x)
 
 
 def get_at(doc, path):
@@ -168,7 +182,7 @@ class C04(core.PropBase):
         for i in range(6000 if thorough else 800):
             kind = "env" if i % 5 == 4 else "job"
             doc = G.gen_env_template(rng) if kind == "env" else G.gen_job_template(rng)
-            M.mutate(rng, doc, n=rng.choice([1, 2, 3, 4]))
+            M.mutate(rng, doc, n=rng.choice([1, 2, 3, 4]), not_json=True)
             yield {"kind": kind, "doc": doc, "tag": "mutated"}
         # 3b. long strings and long reference names at every string position of a rich template (lengths around
         #     the powers of two where a fixed-width counter, buffer or recursion budget would give out)
@@ -242,7 +256,7 @@ class C04(core.PropBase):
         except BaseException as e:  # noqa: BLE001
             v = "other:" + type(e).__name__
         try:
-            same = repr(doc) == repr(before)      # repr: NaN-safe, key-order-sensitive deep comparison
+            same = stable(doc) == stable(before)      # repr-based: NaN-safe, key-order-sensitive deep comparison
         except Exception:  # noqa: BLE001
             same = True
         res = ["decode", v, "untouched" if same else "INPUT-MODIFIED"]
